@@ -71,7 +71,8 @@ theorem step_findProp (s : State) (op : Op) (hne : ∀ dt stk, op ≠ .endBlock 
     simp only [step, Model.C15.ofExcept]
     split
     · rename_i s' h
-      unfold vote at h
+      rw [vote_eq] at h
+      unfold voteSpec at h
       split at h
       · cases h
       · split at h
@@ -150,7 +151,8 @@ theorem step_findProp (s : State) (op : Op) (hne : ∀ dt stk, op ≠ .endBlock 
     simp only [step, Model.C15.ofExcept]
     split
     · rename_i s' h
-      unfold submit at h
+      rw [submit_eq] at h
+      unfold submitSpec at h
       split at h
       · cases h
       · rename_i hchk
@@ -235,8 +237,8 @@ theorem dropInactive_same {s s' : State} {id : Nat} (h1 : inactiveSettleShapeOk 
   obtain ⟨t, ht⟩ := hq
   obtain ⟨p0, hp0, _, _⟩ := ha.both.q.inactSound t id ht
   have key : s'.props = dropProp s.props id ∧ s'.time = s.time ∧ s'.params = s.params := by
-    unfold dropInactive at hs'
-    simp only [refundRun_eq, burnRun_eq] at hs'
+    rw [dropInactive_eq] at hs'
+    unfold dropInactiveSpec at hs'
     simp only [hp0, h1, if_true] at hs'
     split at hs'
     · have sp := refundDeposits_spec (by simpa using ha.inv.bal) hs'
